@@ -44,6 +44,13 @@ def configs(tier):
                                 ('auth:slugs2', {'enabled': 'True', 'url': 'http://user404/'})])]
     for b in BEHAVIOURS:
         cs.append((b, [('auth:slugs', blk(b))]))
+    # enabled and disabled blocks in both orders (a disabled block must neither vouch nor switch the plug-ins off)
+    for a in ('vouch', 'user404', 'unreachable', 'groups404'):
+        for b in ('vouch', 'user404'):
+            cs.append(('%s,off:%s' % (a, b), [('auth:slugs1', blk(a)), ('auth:slugs2', dict(blk(b), enabled='False'))]))
+            cs.append(('off:%s,%s' % (b, a), [('auth:slugs1', dict(blk(b), enabled='False')), ('auth:slugs2', blk(a))]))
+            cs.append(('%s,off:%s,off:%s' % (a, b, b), [('auth:slugs1', blk(a)), ('auth:slugs2', dict(blk(b), enabled='False')),
+                                                         ('auth:slugs3', dict(blk(b), enabled='false'))]))
     for a, b in itertools.product(BEHAVIOURS, repeat=2):
         cs.append(('%s,%s' % (a, b), [('auth:slugs1', blk(a)), ('auth:slugs2', blk(b))]))
     if tier != 'quick':
@@ -158,17 +165,28 @@ def run_case(ctx, case):
                         del entries[:]
                         del sql[:]
                         before = srv.dump()
-                        sent, esc = rig.session_roundtrip(srv.engine, req, der, enable_tls_client_auth=tls_auth,
+                        # the same request two or three times on one connection: every one of them is subject
+                        # to the identity conditions, not only the first
+                        repeat = 1 + (hash((cname, clabel, tls_auth, rlabel)) % 3)
+                        sent, esc = rig.session_roundtrip(srv.engine, req * repeat, der, enable_tls_client_auth=tls_auth,
                                                           auth_settings=blocks)
                         after = srv.dump()
                         ctx.ev()
                         ctx.count('cells_checked')
+                        ctx.count('requests_on_reused_connections', repeat - 1)
                         enter, ident = predict(names, eku, tls_auth, blocks)
-                        detail = {'certificate': clabel, 'tls_client_auth': tls_auth, 'plugins': cname, 'request': rlabel}
+                        detail = {'certificate': clabel, 'tls_client_auth': tls_auth, 'plugins': cname, 'request': rlabel,
+                                  'requests_on_connection': repeat}
                         key = culprit(clabel, tls_auth, eku, names, blocks)
-                        if esc is not None or len(sent) != 1:
-                            ctx.violation('no-response|' + key, 'no single response (%r)' % (esc,), detail)
+                        if esc is not None or len(sent) != repeat:
+                            ctx.violation('no-response|' + key, 'no single response per request (%r, %d of %d)' % (esc, len(sent), repeat), detail)
                             continue
+                        bad_later = [x for x in sent[1:] if rig.Result(x).norm() != rig.Result(sent[0]).norm()]
+                        if bad_later and not (decodable and rlabel.startswith('create')):
+                            ctx.violation('later-request-differs|' + key, 'request %d on the same connection is answered %s, the first %s'
+                                          % (2, rig.Result(bad_later[0]).brief(), rig.Result(sent[0]).brief()), detail)
+                        if enter is False and len(entries) > 0 and decodable:
+                            pass
                         r = rig.Result(sent[0])
                         outcome = r.brief()[0][0] if r.items else 'no-items'
                         ctx.cell(clabel, tls_auth, cname, rlabel, outcome)
@@ -186,9 +204,11 @@ def run_case(ctx, case):
                             continue
                         if enter:
                             ctx.count('engine_entries_expected')
-                            if len(entries) == 1:
+                            if len(entries) == repeat:
                                 ctx.count('engine_entries_observed')
                                 got = entries[0]
+                                if any(e != got for e in entries):
+                                    ctx.violation('identity|' + key, 'identities differ between requests of one connection: %r' % (entries,), detail)
                                 got_n = (got[0], got[1]) if got is not None else None
                                 if got_n is None or got_n[0] != ident[0] or (got_n[1] or None) != (ident[1] or None) and \
                                         not (got_n[1] == ident[1]):
@@ -226,6 +246,8 @@ def culprit(clabel, tls_auth, eku, names, blocks):
         return 'eku-%s' % eku
     slugs = [c for n, c in blocks if n.startswith('auth:slugs') and c.get('enabled') == 'True']
     if slugs:
+        if any(n.startswith('auth:slugs') and c.get('enabled') != 'True' for n, c in blocks):
+            return 'plugin:with-disabled-block' if len(names) == 1 else 'plugin+cn%d' % len(names)
         if len(names) != 1:
             return 'plugin+cn%d' % len(names)
         for c in slugs:
